@@ -142,8 +142,7 @@ func isBaseRemover(f *ssa.Function) bool {
 		return ok && s.X == ssa.Value(sl)
 	}
 	shrinks := false
-	for _, ret := range returnsOf(f) {
-		v := retResult(ret, 0)
+	for _, v := range flatResults(f, 0) {
 		if v == ssa.Value(sl) {
 			continue
 		}
